@@ -77,8 +77,14 @@ func Route(v *vrt.Ctx) {
 	// selector is arbitrary too (it must be inert: a match was already made)
 	// ... or terminal: no code at all, the session ends there (and must end
 	// there: the matched input is not reported as invalid afterwards)
-	destShape := v.Choice("dest-shape", 3)
+	// ... or stopping at a HALT followed by one INCMP of its own (shape 3):
+	// the next input is then routed by that node's lines only
+	destShape := v.Choice("dest-shape", 4)
 	destInCmp := destShape == 1
+	ownSel := ""
+	if destShape == 3 {
+		ownSel = v.Str("dest-own-selector", 1)
+	}
 	rs := app.NewRes()
 	names := []string{"root", "mid", "deep"}
 	for i := 0; i < depth-1; i++ {
@@ -95,6 +101,10 @@ func Route(v *vrt.Ctx) {
 		}
 		if destShape == 2 {
 			rs.Node(t, t, c.Load("tail", 0).Bytes())
+			continue
+		}
+		if destShape == 3 {
+			rs.Node(t, t, c.Halt().InCmp("extra", ownSel).Bytes())
 			continue
 		}
 		rs.Node(t, t, c.Halt().Bytes())
@@ -155,6 +165,27 @@ func Route(v *vrt.Ctx) {
 	v.Assert(samePath(st.ExecPath, want.path), "C03/position-is-first-match")
 	v.Assert(st.SizeIdx == want.idx, "C03/page-index-is-first-match")
 	v.Assert(codeCalls(rs)-entered0 == 1, "C03/exactly-one-node-entered")
+	// a second input at a named destination that stopped at its HALT before an INCMP: only
+	// that node's own INCMP lines take part, whatever was left unread of the
+	// node the session came from
+	last := want.path[len(want.path)-1]
+	if !caught && destShape == 3 && (last == "one" || last == "two" || last == "three") {
+		in2 := v.Bytes("second-input", 1)
+		_, verr2 := vm.ValidInput(in2)
+		v.Assume(verr2 == nil)
+		st.SetInput(in2)
+		_, err = vmi.Run(ctx, rest)
+		v.Observe("second-err", err)
+		v.Assert(err == nil, "C03/second-run-ok")
+		next := "_catch"
+		if ownSel == string(in2) || ownSel == "*" {
+			next = "extra"
+		}
+		want2 := append(append([]string{}, want.path...), next)
+		v.Assert(samePath(st.ExecPath, want2), "C03/second-input-is-routed-by-the-current-node-only")
+		v.Cover("C03/second-input")
+		return
+	}
 	if caught {
 		out, rerr := vmi.Render(ctx)
 		v.Assert(rerr == nil, "C03/catch-renders")
